@@ -45,9 +45,8 @@ Fixpoint first_pass (advs : list Z) (infos : list info) (todo : list info) (i : 
     | PDistance dx dy => first_pass advs infos rest (i + 1) (pset ps i (pos_update p h 0 dx dy)) hm hc
     | PMarkAnchor b (bx, by_) (mx, my) =>
       match nth_opt infos b with
-      | Some bi =>
-        let '(dx, dy) := match i_place bi with PDistance dx dy => (dx, dy) | _ => (0, 0) end in
-        first_pass advs infos rest (i + 1) (pset ps i (pos_update p h 0 (bx - mx + dx) (by_ - my + dy))) true hc
+      | Some _ =>
+        first_pass advs infos rest (i + 1) (pset ps i (pos_update p h 0 (bx - mx) (by_ - my))) true hc
       | None => Err BadIndex
       end
     | PMarkOverprint b =>
